@@ -9,7 +9,10 @@ then one run per failure point.  After each run, whichever way the call ended:
   (4) the same scenario run fault-free right afterwards (same schema object /
       same SchemaLoader) has the baseline outcome,
   (5) no ResourceWarning was emitted,
-  (6) the stream handed to load*File as the top resource is closed.
+  (6) the stream handed to load*File as the top resource is closed,
+  (7) every simulated http connection opened during the call is closed at the
+      moment the call returns or its exception reaches the caller (an
+      HTTPError is a response object with an open body).
 """
 
 import io
@@ -185,6 +188,10 @@ class Ctx:
         for n, url in w.unclosed_streams():
             problems.append(("stream-open", "stream of open #%d %s not closed"
                              % (n, url)))
+        for url in w.unclosed_connections():
+            problems.append(("connection-open",
+                             "the connection opened for %s is still open "
+                             "when the call ends" % url))
         for n, url in w.stream_order_violations():
             problems.append(("stream-late-close",
                              "stream of open #%d %s still open when its "
